@@ -44,24 +44,26 @@ EmitShape == LET i == ((gi - 1) \div 2) + 1
                   /\ PrintT(<<"CASE", ToJson(Case(gi * 4, sh, k, "ok", Framings(Len(wire))))>>)
                   /\ (sh.tags.m = "GET" /\ sh.tags.cl = "absent" /\ sh.tags.extra = "none") =>
                         PrintT(<<"CASE", ToJson(Case(gi * 4 + 1, sh, k, "uiBusy", <<<<Len(wire)>>, <<3, Len(wire) - 3>>>>))>>)
-                  /\ (sh.tags.start = "post" /\ sh.tags.body = "up" /\ sh.tags.cl = "ok" /\ sh.tags.key = "exact") =>
-                        PrintT(<<"SLOW", ToJson(Case(gi * 4 + 2, sh, k, "chanFull", <<<<Len(wire)>>>>))>>)
 GInitShape == gi \in 1..Shards
 GNextShape == gi + Shards <= 2 * NShapes /\ gi' = gi + Shards
+
+(* the terminal does not take server input (channel full): the POST is answered 503 after the channel timeout *)
+EmitSlow == LET sh == Std("post", "exact", "ok", "up")  n == Len(Wire(sh.req))
+            IN gi <= 2 => PrintT(<<"SLOW", ToJson(Case(800000 + gi, sh, KeySeq[gi], "chanFull", <<<<n>>>>))>>)
 
 BigSeq == SetToSeq(BigShapes)
 EmitBig == gi <= Len(BigSeq) =>
               LET sh == BigSeq[gi]  n == Len(Wire(sh.req))
-              IN PrintT(<<"CASE", ToJson(Case(900000 + gi, sh, "", "ok", <<<<n>>, <<n - 4, 4>>, <<n - 1>>, <<n - 2, 2>>>>))>>)
-GInitBig == gi \in 1..Len(BigSeq)
+              IN PrintT(<<"BIG", ToJson(Case(900000 + gi, sh, "", "ok", <<<<n>>, <<n - 4, 4>>, <<n - 1>>, <<n - 2, 2>>, <<16, n - 16>>>>))>>)
 GNextNone == FALSE /\ UNCHANGED gi
 
+(* Gen_ServerMisc.cfg walks gi over the action lists; the small tables below are printed by the first values of gi *)
 (* action lists *)
 ListCase(id, b) == LET p == ParseActions(b)
                        r == [ok |-> p.ok, acts |-> p.acts]
-                   IN [id |-> id, list |-> b,
+                   IN [id |-> id, list |-> b, commatail |-> \E j \in 1..(Len(b) - 1) : b[j + 1] = "," /\ b[j] \in {")", "]", ">", "~", "|"},
                        exp |-> [post |-> r, bind |-> r, opts |-> r, bound |-> [ok |-> p.ok, acts |-> BindOrder(p.acts)]]]
-EmitList == gi <= Len(ListSeq) => PrintT(<<"CASE", ToJson(ListCase(gi, ListSeq[gi]))>>)
+EmitList == gi <= Len(ListSeq) => PrintT(<<"LIST", ToJson(ListCase(gi, ListSeq[gi]))>>)
 GInitList == gi \in 1..Shards
 GNextList == gi + Shards <= Len(ListSeq) /\ gi' = gi + Shards
 RoundTripAll == \A l \in ValidLists : RoundTrip(l)
@@ -76,13 +78,11 @@ StartCase(id, parts, k) == LET p == ParseListen(parts)
                            IN [id |-> id, addr |-> Str(parts), key |-> k,
                                exp |-> [parsed |-> p.ok, host |-> p.host, port |-> p.port, local |-> p.ok /\ IsLocal(p.host),
                                         started |-> p.ok /\ StartAllowed(p.host, k), refused |-> p.ok /\ ~StartAllowed(p.host, k)]]
-EmitStart == gi <= Len(AddrSeq) => /\ PrintT(<<"CASE", ToJson(StartCase(2 * gi, AddrSeq[gi], ""))>>)
-                                   /\ PrintT(<<"CASE", ToJson(StartCase(2 * gi + 1, AddrSeq[gi], KEY))>>)
-GInitStart == gi \in 1..Len(AddrSeq)
+EmitStart == gi <= Len(AddrSeq) => /\ PrintT(<<"START", ToJson(StartCase(2 * gi, AddrSeq[gi], ""))>>)
+                                   /\ PrintT(<<"START", ToJson(StartCase(2 * gi + 1, AddrSeq[gi], KEY))>>)
 
 (* which delivered actions a remote listener without --listen-unsafe lets through *)
 TypeSeq == SetToSeq(ExecTypes \cup {ArgActs[n] : n \in DOMAIN ArgActs} \cup UNION {{SimpleActs[n][x] : x \in 1..Len(SimpleActs[n])} : n \in DOMAIN SimpleActs})
-EmitExec == gi <= Len(TypeSeq) => PrintT(<<"CASE", ToJson([id |-> gi, type |-> TypeSeq[gi],
+EmitExec == gi <= Len(TypeSeq) => PrintT(<<"EXEC", ToJson([id |-> gi, type |-> TypeSeq[gi],
                                      exp |-> [known |-> TRUE, exec |-> TypeSeq[gi] \in ExecTypes]])>>)
-GInitExec == gi \in 1..Len(TypeSeq)
 =============================================================================
